@@ -66,6 +66,9 @@ type proxyCase struct {
 	Absent []string `json:"absent"` // extra request paths (after /mod/) expected to be 404
 	Order  []int    `json:"order"`  // permutation seed for the concurrent phase
 	E2E    bool     `json:"e2e"`
+	// HashFirst: the requests that address a pseudo-version by its commit hash (answered with the data of a matching
+	// stored version; not asserted beyond being well-formed HTTP) come before the by-version requests instead of after.
+	HashFirst bool `json:"hash_first,omitempty"`
 	// Stray names entries of the served directory that are not module versions (a trailing / makes a directory).
 	Stray []string `json:"stray,omitempty"`
 }
@@ -282,6 +285,21 @@ func checkProxy(c proxyCase) *vt.Fail {
 			return nil
 		}})
 	}
+	var hashReqs []req
+	for _, m := range c.Mods {
+		if !isPseudo(m.Version) {
+			continue
+		}
+		encP, _ := module.EscapePath(m.Path)
+		hash := m.Version[strings.LastIndex(m.Version, "-")+1:]
+		for _, f := range []string{hash + ".zip", hash + ".info", hash[:7] + ".zip", hash + ".mod"} {
+			hashReqs = append(hashReqs, req{srv.URL + "/" + encP + "/@v/" + f, func(r resp) *vt.Fail { return nil }})
+		}
+	}
+	if c.HashFirst {
+		reqs = append(hashReqs, reqs...)
+		hashReqs = nil
+	}
 	var paths []string
 	for p := range byPath {
 		paths = append(paths, p)
@@ -333,6 +351,7 @@ func checkProxy(c proxyCase) *vt.Fail {
 		}
 		return nil
 	}})
+	reqs = append(reqs, hashReqs...)
 	seqResp := make([]resp, len(reqs))
 	for i, rq := range reqs {
 		r, err := get(cl, rq.url)
@@ -605,6 +624,7 @@ func genProxy(t *rapid.T) proxyCase {
 		c.Absent = append(c.Absent, rapid.SampledFrom(absentPool).Draw(t, "absent"))
 	}
 	c.Order = rapid.SliceOfN(rapid.IntRange(0, 1000), 4, 12).Draw(t, "order")
+	c.HashFirst = rapid.Bool().Draw(t, "hashfirst")
 	c.Stray = rapid.SliceOfNDistinct(rapid.SampledFrom([]string{"README", "notes.txt", "plain/", "archive.txtar", "example.com_a.txt", ".hidden.txt", "go.mod"}), 0, 3, rapid.ID[string]).Draw(t, "stray")
 	return c
 }
